@@ -570,4 +570,438 @@ theorem step_pop_cont (f : Bytes → Res) (hf : ∀ a, ∃ o l, f a = .ok o l) (
       · intro _; exact ⟨_, rfl⟩
       · intro hg; exact hg.elim
 
+/-- What an argument-taking iteration writes for the argument `a`. -/
+def popOut (f : Bytes → Res) (c : UInt8) (rest fmts a : Bytes) : Bytes :=
+  match step (some f) c rest ⟨fmts, [a]⟩ with
+  | .cont o _ _ => o
+  | .stop _ => []
+
+/-- The loop of formatInto, one iteration, seen from the argument list. -/
+theorem go_view (f : Bytes → Res) (hf : ∀ a, ∃ o l, f a = .ok o l) (c : UInt8) (rest fm : Bytes)
+    (args : List Bytes) (hinv : FmtsOK fm) :
+    go (some f) (c :: rest) 0 ⟨fm, args⟩ =
+      if pops fm c = true then
+        (go (some f) rest 0 ⟨[], args.tail⟩).prepend (popOut f c rest fm (args.headD []))
+      else
+        match step (some f) c rest ⟨fm, []⟩ with
+        | .cont o st' k => (go (some f) rest k ⟨st'.fmts, args⟩).prepend o
+        | .stop r => r := by
+  rw [go_zero]
+  by_cases hp : pops fm c = true
+  · simp only [hp, if_true]
+    rw [step_pop _ _ _ _ _ hp]
+    obtain ⟨o, ho⟩ := step_pop_cont f hf c rest fm (args.headD []) hinv hp
+    simp only [popOut, ho, Step.withArgs]
+  · simp only [hp]
+    simp only [Bool.not_eq_true] at hp
+    rw [step_nopop _ _ _ _ _ hp]
+    cases step (some f) c rest ⟨fm, []⟩ with
+    | cont o st' k => simp only [Step.withArgs]; rfl
+    | stop r => rfl
+
+/-- `fmts` after an iteration that takes no argument satisfies the invariant again. -/
+theorem step_nopop_inv (f : Bytes → Res) (hf : ∀ a, ∃ o l, f a = .ok o l) (c : UInt8) (rest fm : Bytes)
+    (hinv : FmtsOK fm) (o : Bytes) (st' : St) (k : Nat)
+    (h : step (some f) c rest ⟨fm, []⟩ = .cont o st' k) : FmtsOK st'.fmts := by
+  have hg := step_good_some f c rest ⟨fm, []⟩ (good_of_ok f hf) hinv
+  rw [h] at hg
+  exact hg.1
+
+def Res.errOf : Res → Option Err
+  | .err _ e => some e
+  | _ => none
+
+/-- The result with the "arguments left" count erased. -/
+def Res.view : Res → Res
+  | .ok out _ => .ok out 0
+  | r => r
+
+theorem Res.view_prepend (o : Bytes) (r : Res) : (r.prepend o).view = (r.view).prepend o := by
+  cases r <;> rfl
+
+/-- Arguments that are missing behave as empty strings (for `%c`: a NUL byte either way). -/
+theorem go_missing (f : Bytes → Res) (hf : ∀ a, ∃ o l, f a = .ok o l) (m : Nat) :
+    ∀ (fmt : Bytes) (k : Nat) (fm : Bytes) (args : List Bytes), FmtsOK fm →
+      (go (some f) fmt k ⟨fm, args ++ List.replicate m []⟩).view = (go (some f) fmt k ⟨fm, args⟩).view
+  | [], k, fm, args, _ => by
+    simp only [go_nil]; split <;> rfl
+  | c :: rest, k + 1, fm, args, h => by
+    simp only [go_skip]; exact go_missing f hf m rest k fm args h
+  | c :: rest, 0, fm, args, h => by
+    rw [go_view f hf c rest fm _ h, go_view f hf c rest fm args h]
+    by_cases hp : pops fm c = true
+    · simp only [hp, if_true, Res.view_prepend]
+      cases args with
+      | nil =>
+        cases m with
+        | zero => rfl
+        | succ m' =>
+          simp only [List.nil_append, List.replicate_succ, List.headD_cons, List.tail_cons, List.headD_nil,
+            List.tail_nil]
+          have := go_missing f hf m' rest 0 [] [] FmtsOK_nil
+          simp only [List.nil_append] at this
+          rw [this]
+      | cons a as =>
+        simp only [List.cons_append, List.headD_cons, List.tail_cons]
+        rw [go_missing f hf m rest 0 [] as FmtsOK_nil]
+    · rw [if_neg hp, if_neg hp]
+      cases hs : step (some f) c rest ⟨fm, []⟩ with
+      | cont o st' k =>
+        simp only [Res.view_prepend]
+        rw [go_missing f hf m rest k st'.fmts args (step_nopop_inv f hf c rest fm h o st' k hs)]
+      | stop r => rfl
+
+theorem step_stop_not_ok (f : Bytes → Res) (_hf : ∀ a, ∃ o l, f a = .ok o l) (c : UInt8) (rest : Bytes)
+    (st : St) (r : Res) (hs : step (some f) c rest st = .stop r) : ∀ out l, r ≠ .ok out l := by
+  intro out l hr
+  subst hr
+  revert hs
+  unfold step
+  repeat' split
+  all_goals try (simp_all; done)
+  all_goals (intro hs; simp only at hs; split at hs <;> simp_all)
+
+theorem Res.prepend_eq_ok (o : Bytes) (r : Res) (out : Bytes) (left : Nat)
+    (h : r.prepend o = .ok out left) : ∃ out', r = .ok out' left ∧ out = o ++ out' := by
+  cases r with
+  | ok out' l => simp only [Res.prepend, Res.ok.injEq] at h; exact ⟨out', by rw [h.2], h.1.symm⟩
+  | err _ _ => simp [Res.prepend] at h
+  | panic => simp [Res.prepend] at h
+  | unmodelled => simp [Res.prepend] at h
+
+/-- The pass never leaves more arguments than it was given. -/
+theorem go_left_le (f : Bytes → Res) (hf : ∀ a, ∃ o l, f a = .ok o l) :
+    ∀ (fmt : Bytes) (k : Nat) (fm : Bytes) (args : List Bytes) (out : Bytes) (left : Nat), FmtsOK fm →
+      go (some f) fmt k ⟨fm, args⟩ = .ok out left → left ≤ args.length
+  | [], k, fm, args, out, left, _, hgo => by
+    simp only [go_nil] at hgo
+    split at hgo
+    · cases hgo
+    · cases hgo; exact Nat.le_refl _
+  | c :: rest, k + 1, fm, args, out, left, h, hgo => by
+    simp only [go_skip] at hgo; exact go_left_le f hf rest k fm args out left h hgo
+  | c :: rest, 0, fm, args, out, left, h, hgo => by
+    rw [go_view f hf c rest fm args h] at hgo
+    by_cases hp : pops fm c = true
+    · rw [if_pos hp] at hgo
+      obtain ⟨out', hr, _⟩ := Res.prepend_eq_ok _ _ _ _ hgo
+      have := go_left_le f hf rest 0 [] args.tail out' left FmtsOK_nil hr
+      have h2 : args.tail.length ≤ args.length := by simp
+      omega
+    · rw [if_neg hp] at hgo
+      cases hs : step (some f) c rest ⟨fm, []⟩ with
+      | cont o st' k =>
+        rw [hs] at hgo
+        obtain ⟨out', hr, _⟩ := Res.prepend_eq_ok _ _ _ _ hgo
+        exact go_left_le f hf rest k st'.fmts args out' left
+          (step_nopop_inv f hf c rest fm h o st' k hs) hr
+      | stop r =>
+        rw [hs] at hgo
+        exact absurd hgo (step_stop_not_ok f hf c rest _ r hs out left)
+
+theorem Res.errOf_prepend (o : Bytes) (r : Res) : (r.prepend o).errOf = r.errOf := by
+  cases r <;> rfl
+
+/-- Whether (and how) a pass fails depends on the format only, not on the arguments. -/
+theorem go_err_indep (f : Bytes → Res) (hf : ∀ a, ∃ o l, f a = .ok o l) :
+    ∀ (fmt : Bytes) (k : Nat) (fm : Bytes) (a1 a2 : List Bytes), FmtsOK fm →
+      (go (some f) fmt k ⟨fm, a1⟩).errOf = (go (some f) fmt k ⟨fm, a2⟩).errOf
+  | [], k, fm, a1, a2, _ => by
+    simp only [go_nil]; split <;> rfl
+  | c :: rest, k + 1, fm, a1, a2, h => by
+    simp only [go_skip]; exact go_err_indep f hf rest k fm a1 a2 h
+  | c :: rest, 0, fm, a1, a2, h => by
+    rw [go_view f hf c rest fm a1 h, go_view f hf c rest fm a2 h]
+    by_cases hp : pops fm c = true
+    · rw [if_pos hp, if_pos hp, Res.errOf_prepend, Res.errOf_prepend]
+      exact go_err_indep f hf rest 0 [] _ _ FmtsOK_nil
+    · rw [if_neg hp, if_neg hp]
+      cases hs : step (some f) c rest ⟨fm, []⟩ with
+      | cont o st' k =>
+        simp only [Res.errOf_prepend]
+        exact go_err_indep f hf rest k st'.fmts a1 a2 (step_nopop_inv f hf c rest fm h o st' k hs)
+      | stop r => rfl
+
+/-- Trailing arguments a pass does not reach can be removed without changing what it writes. -/
+theorem go_prefix (f : Bytes → Res) (hf : ∀ a, ∃ o l, f a = .ok o l) :
+    ∀ (fmt : Bytes) (k : Nat) (fm : Bytes) (p q : List Bytes) (out : Bytes) (left : Nat), FmtsOK fm →
+      go (some f) fmt k ⟨fm, p ++ q⟩ = .ok out left → q.length ≤ left →
+      go (some f) fmt k ⟨fm, p⟩ = .ok out (left - q.length)
+  | [], k, fm, p, q, out, left, _, hgo, _ => by
+    simp only [go_nil] at hgo ⊢
+    split at hgo
+    · cases hgo
+    · rename_i hl
+      cases hgo
+      simp [hl]
+  | c :: rest, k + 1, fm, p, q, out, left, h, hgo, hq => by
+    simp only [go_skip] at hgo ⊢; exact go_prefix f hf rest k fm p q out left h hgo hq
+  | c :: rest, 0, fm, p, q, out, left, h, hgo, hq => by
+    rw [go_view f hf c rest fm _ h] at hgo
+    rw [go_view f hf c rest fm _ h]
+    by_cases hp : pops fm c = true
+    · rw [if_pos hp] at hgo ⊢
+      obtain ⟨out', hr, ho⟩ := Res.prepend_eq_ok _ _ _ _ hgo
+      cases p with
+      | nil =>
+        cases q with
+        | nil => simpa using hgo
+        | cons b q' =>
+          -- the argument would come from `q`: then fewer than |q| are left
+          exfalso
+          have := go_left_le f hf rest 0 [] _ out' left FmtsOK_nil hr
+          simp at this; simp at hq; omega
+      | cons a p' =>
+        simp only [List.cons_append, List.tail_cons, List.headD_cons] at hr ho ⊢
+        rw [go_prefix f hf rest 0 [] p' q out' left FmtsOK_nil hr hq]
+        simp [Res.prepend, ho]
+    · rw [if_neg hp] at hgo ⊢
+      cases hs : step (some f) c rest ⟨fm, []⟩ with
+      | cont o st' k =>
+        rw [hs] at hgo
+        obtain ⟨out', hr, ho⟩ := Res.prepend_eq_ok _ _ _ _ hgo
+        simp only
+        rw [go_prefix f hf rest k st'.fmts p q out' left
+          (step_nopop_inv f hf c rest fm h o st' k hs) hr hq]
+        simp [Res.prepend, ho]
+      | stop r =>
+        rw [hs] at hgo
+        exact absurd hgo (step_stop_not_ok f hf c rest _ r hs out left)
+
+/-! ## the reuse loop of the `printf` builtin -/
+
+/-- `Reuse fmt args out`: `out` is the concatenation of what single passes write for consecutive
+    chunks of `args`, each chunk used up completely by its pass — or the format takes no argument
+    at all and the arguments are ignored. -/
+inductive Reuse (fmt : Bytes) : List Bytes → Bytes → Prop
+  | last (chunk : List Bytes) (out : Bytes) :
+      formatArgs fmt chunk = .ok out 0 → Reuse fmt chunk out
+  | ignored (args : List Bytes) (out : Bytes) :
+      args ≠ [] → formatArgs fmt args = .ok out args.length → Reuse fmt args out
+  | more (chunk rest : List Bytes) (out out' : Bytes) :
+      chunk ≠ [] → rest ≠ [] → formatArgs fmt chunk = .ok out 0 → Reuse fmt rest out' →
+      Reuse fmt (chunk ++ rest) (out ++ out')
+
+theorem formatArgs_errOf_indep (fmt : Bytes) (a1 a2 : List Bytes) :
+    (formatArgs fmt a1).errOf = (formatArgs fmt a2).errOf :=
+  go_err_indep formatNil nestedOK_formatNil fmt 0 [] a1 a2 FmtsOK_nil
+
+theorem formatArgs_cases (fmt : Bytes) (args : List Bytes) :
+    (∃ out left, formatArgs fmt args = .ok out left ∧ left ≤ args.length) ∨
+    (∃ out e, formatArgs fmt args = .err out e) := by
+  have hg := formatArgs_good fmt args
+  cases h : formatArgs fmt args with
+  | ok out left =>
+    exact Or.inl ⟨out, left, rfl, go_left_le formatNil nestedOK_formatNil fmt 0 [] args out left FmtsOK_nil h⟩
+  | err out e => exact Or.inr ⟨out, e, rfl⟩
+  | panic => rw [h] at hg; exact hg.elim
+  | unmodelled => rw [h] at hg; exact hg.elim
+
+theorem formatArgs_prefix (fmt : Bytes) (args : List Bytes) (out : Bytes) (left : Nat)
+    (h : formatArgs fmt args = .ok out left) (hl : left ≤ args.length) :
+    formatArgs fmt (args.take (args.length - left)) = .ok out 0 := by
+  have hsplit : args = args.take (args.length - left) ++ args.drop (args.length - left) :=
+    (List.take_append_drop _ _).symm
+  have hq : (args.drop (args.length - left)).length = left := by simp; omega
+  have h' : go (some formatNil) fmt 0 ⟨[], args.take (args.length - left) ++ args.drop (args.length - left)⟩
+      = .ok out left := by rw [← hsplit]; exact h
+  have := go_prefix formatNil nestedOK_formatNil fmt 0 [] _ _ out left FmtsOK_nil h' (by omega)
+  rw [hq, Nat.sub_self] at this
+  exact this
+
+theorem printfLoop_reuse (fmt : Bytes) (hok : (formatArgs fmt []).errOf = none) :
+    ∀ (fuel : Nat) (args : List Bytes) (acc : Bytes), args.length < fuel →
+      ∃ out, printfLoop fuel fmt args acc = .done { out := acc ++ out, status := 0 } ∧ Reuse fmt args out
+  | 0, args, acc, h => by omega
+  | fuel + 1, args, acc, hfuel => by
+    rw [printfLoop_succ]
+    rcases formatArgs_cases fmt args with ⟨out, left, hfa, hle⟩ | ⟨out, e, hfa⟩
+    · simp only [hfa]
+      have hdl : (args.drop (args.length - left)).length = left := by simp; omega
+      rw [hdl]
+      by_cases hstop : args.length - left = 0 ∨ left = 0
+      · rw [if_pos hstop]
+        refine ⟨out, rfl, ?_⟩
+        by_cases hl0 : left = 0
+        · subst hl0; exact Reuse.last _ _ hfa
+        · have hll : left = args.length := by omega
+          have hne : args ≠ [] := by intro h; subst h; simp at hll; exact hl0 hll
+          exact Reuse.ignored _ _ hne (by rw [← hll]; exact hfa)
+      · rw [if_neg hstop]
+        have hlt : (args.drop (args.length - left)).length < fuel := by rw [hdl]; omega
+        obtain ⟨out', hloop, hre⟩ := printfLoop_reuse fmt hok fuel _ (acc ++ out) hlt
+        refine ⟨out ++ out', by rw [hloop]; simp, ?_⟩
+        have hsplit : args = args.take (args.length - left) ++ args.drop (args.length - left) :=
+          (List.take_append_drop _ _).symm
+        rw [hsplit]
+        refine Reuse.more _ _ _ _ ?_ ?_ (formatArgs_prefix fmt args out left hfa hle) hre
+        · intro h
+          have : (args.take (args.length - left)).length = 0 := by rw [h]; rfl
+          simp at this; omega
+        · intro h
+          rw [h] at hdl; simp at hdl; omega
+    · exfalso
+      have := formatArgs_errOf_indep fmt args []
+      rw [hfa, hok] at this
+      simp [Res.errOf] at this
+
+theorem printfLoop_err (fmt : Bytes) (e : Err) (hok : (formatArgs fmt []).errOf = some e)
+    (fuel : Nat) (args : List Bytes) (acc : Bytes) :
+    printfLoop (fuel + 1) fmt args acc = .done { out := acc, status := 1 } := by
+  rw [printfLoop_succ]
+  rcases formatArgs_cases fmt args with ⟨out, left, hfa, _⟩ | ⟨out, e', hfa⟩
+  · have := formatArgs_errOf_indep fmt args []
+    rw [hfa, hok] at this
+    simp [Res.errOf] at this
+  · simp only [hfa]
+
+theorem format_obs (f : Bytes) (args : List Bytes) (nil : Bool) : ∃ o, format f args nil = .obs o := by
+  obtain ⟨o, h⟩ := formatInto_obs f args nil
+  unfold format
+  rw [h]
+  simp only
+  split <;> exact ⟨_, rfl⟩
+
+theorem echoBody_some (ex : Bool) : ∀ (ws : List Bytes) (first : Bool), ∃ b, echoBody ex ws first = some b
+  | [], _ => ⟨[], rfl⟩
+  | w :: rest, first => by
+    obtain ⟨r, hr⟩ := echoBody_some ex rest false
+    have : ∃ x, echoArg ex w = some x := by
+      unfold echoArg
+      cases ex with
+      | false => exact ⟨w, rfl⟩
+      | true =>
+        obtain ⟨o, ho⟩ := format_obs w [] true
+        simp only [if_true, ho]
+        exact ⟨_, rfl⟩
+    obtain ⟨x, hx⟩ := this
+    simp only [echoBody, hx, hr]
+    exact ⟨_, rfl⟩
+
+/-! ## escapes -/
+
+theorem Res.prepend_nil (r : Res) : r.prepend [] = r := by
+  cases r <;> simp [Res.prepend]
+
+theorem Res.prepend_prepend (a b : Bytes) (r : Res) : (r.prepend b).prepend a = r.prepend (a ++ b) := by
+  cases r <;> simp [Res.prepend]
+
+/-- Bytes already consumed by an escape are skipped. -/
+theorem go_skip_append (n : Option (Bytes → Res)) (st : St) (rest : Bytes) :
+    ∀ (pre : Bytes), go n (pre ++ rest) pre.length st = go n rest 0 st
+  | [] => rfl
+  | c :: pre => by
+    simp only [List.cons_append, List.length_cons, go_skip]
+    exact go_skip_append n st rest pre
+
+/-- A backslash in the format: the escape is written, whatever the directive state. -/
+theorem go_escape (n : Option (Bytes → Res)) (rest o : Bytes) (k : Nat) (st : St)
+    (h : escape rest = some (o, k)) :
+    go n (92 :: rest) 0 st = (go n rest k st).prepend o := by
+  rw [go_zero]
+  simp [step, h]
+
+/-- The single-character escapes: (character after the backslash, byte written). -/
+def escTable : List (UInt8 × UInt8) :=
+  [(97, 7), (98, 8), (101, 27), (69, 27), (102, 12), (110, 10), (114, 13), (116, 9), (118, 11),
+   (92, 92), (39, 39), (34, 34), (63, 63)]
+
+theorem escape_table (p : UInt8 × UInt8) (hp : p ∈ escTable) (rest : Bytes) :
+    escape (p.1 :: rest) = some ([p.2], 1) := by
+  simp only [escTable, List.mem_cons, List.not_mem_nil, or_false] at hp
+  rcases hp with h | h | h | h | h | h | h | h | h | h | h | h | h <;> subst h <;> simp [escape]
+
+/-! ## strconv on digit strings -/
+
+/-- Value of a digit string in the given base, continuing from `n`. -/
+def foldv (base : Nat) (ds : Bytes) (n : Nat) : Nat :=
+  ds.foldl (fun acc d => acc * base + (digitVal d).getD 0) n
+
+theorem foldv_nil (base n : Nat) : foldv base [] n = n := rfl
+theorem foldv_cons (base : Nat) (d : UInt8) (ds : Bytes) (n : Nat) :
+    foldv base (d :: ds) n = foldv base ds (n * base + (digitVal d).getD 0) := rfl
+
+theorem foldv_ge (base : Nat) (hb : 1 ≤ base) : ∀ (ds : Bytes) (n : Nat), n ≤ foldv base ds n
+  | [], n => Nat.le_refl n
+  | d :: ds, n => by
+    rw [foldv_cons]
+    have h1 : n ≤ n * base := Nat.le_mul_of_pos_right n hb
+    have h2 := foldv_ge base hb ds (n * base + (digitVal d).getD 0)
+    omega
+
+theorem foldv_mono (base : Nat) : ∀ (ds : Bytes) (m n : Nat), m ≤ n → foldv base ds m ≤ foldv base ds n
+  | [], m, n, h => h
+  | d :: ds, m, n, h => by
+    rw [foldv_cons, foldv_cons]
+    apply foldv_mono base ds
+    have := Nat.mul_le_mul_right base h
+    omega
+
+def ValidDigits (base : Nat) (ds : Bytes) : Prop := ∀ d ∈ ds, ∃ x, digitVal d = some x ∧ x < base
+
+theorem digitVal_underscore : digitVal 95 = none := by decide
+
+theorem cutoff_mul (base : Nat) (hb : 1 ≤ base) : maxU64 < (maxU64 / base + 1) * base := by
+  have h := Nat.div_add_mod maxU64 base
+  have hm : maxU64 % base < base := Nat.mod_lt _ hb
+  rw [Nat.add_mul, Nat.one_mul, Nat.mul_comm]
+  omega
+
+/-- The ParseUint loop on valid digits: the value, or `maxVal` with a range error. -/
+theorem parseUintLoop_valid (base : Nat) (hb : 1 ≤ base) (base0 : Bool) (maxVal : Nat) (hmax : maxVal ≤ maxU64)
+    (us : Bool) : ∀ (ds : Bytes) (n : Nat), ValidDigits base ds → n ≤ maxVal →
+      parseUintLoop base base0 (maxU64 / base + 1) maxVal ds n us =
+        if foldv base ds n ≤ maxVal then (foldv base ds n, .ok, us) else (maxVal, .range, us)
+  | [], n, _, hn => by simp [parseUintLoop, foldv_nil, hn]
+  | d :: ds, n, hv, hn => by
+    obtain ⟨x, hx, hxb⟩ := hv d (List.mem_cons_self ..)
+    have hv' : ValidDigits base ds := fun y hy => hv y (List.mem_cons_of_mem _ hy)
+    have hd95 : ¬ (d = 95 ∧ base0 = true) := by
+      intro h; rw [h.1, digitVal_underscore] at hx; cases hx
+    rw [parseUintLoop, if_neg hd95, hx]
+    simp only
+    rw [if_neg (Nat.not_le.2 hxb), foldv_cons, hx, Option.getD_some]
+    by_cases hc : n ≥ maxU64 / base + 1
+    · rw [if_pos hc]
+      have h1 : maxU64 < n * base := Nat.lt_of_lt_of_le (cutoff_mul base hb) (Nat.mul_le_mul_right base hc)
+      have h2 := foldv_ge base hb ds (n * base + x)
+      rw [if_neg (by omega)]
+    · rw [if_neg hc]
+      by_cases ho : n * base + x > maxVal
+      · rw [if_pos ho]
+        have h2 := foldv_ge base hb ds (n * base + x)
+        rw [if_neg (by omega)]
+      · rw [if_neg ho]
+        exact parseUintLoop_valid base hb base0 maxVal hmax us ds _ hv' (by omega)
+
+
+theorem parseUintLoop_us (base : Nat) (cutoff maxVal : Nat) :
+    ∀ (ds : Bytes) (n : Nat) (us : Bool), (parseUintLoop base false cutoff maxVal ds n us).2.2 = us
+  | [], n, us => rfl
+  | d :: ds, n, us => by
+    rw [parseUintLoop]
+    simp only [Bool.false_eq_true, and_false, if_false]
+    cases digitVal d with
+    | none => rfl
+    | some x =>
+      simp only
+      repeat' split
+      all_goals first | rfl | exact parseUintLoop_us base cutoff maxVal ds _ us
+
+/-- `ParseUint(s, base, bitSize)` with an explicit base on valid digits. -/
+theorem parseUint_valid (base bitSize : Nat) (hb : 2 ≤ base) (hbs : 1 ≤ bitSize ∧ bitSize ≤ 64)
+    (ds : Bytes) (hne : ds ≠ []) (hv : ValidDigits base ds) :
+    parseUint ds base bitSize =
+      if foldv base ds 0 ≤ 2 ^ bitSize - 1 then (foldv base ds 0, .ok) else (2 ^ bitSize - 1, .range) := by
+  have hb0 : base ≠ 0 := by omega
+  have hbs0 : bitSize ≠ 0 := by omega
+  have hmax : 2 ^ bitSize - 1 ≤ maxU64 := by
+    have : 2 ^ bitSize ≤ 2 ^ 64 := Nat.pow_le_pow_right (by decide) hbs.2
+    simp only [maxU64]; omega
+  have hloop := parseUintLoop_valid base (by omega) (base == 0) (2 ^ bitSize - 1) hmax false ds 0 hv (Nat.zero_le _)
+  unfold parseUint
+  simp only [hne, if_false, hb0, hbs0]
+  rw [hloop]
+  split <;> simp
+
 end ShVerif.C24
